@@ -85,6 +85,24 @@ instance : Rd V3 := ⟨fun
   | 'B' :: r => (rd (α := Nat) r).map fun (x, r') => (⟨1, x⟩, r')
   | 'C' :: r => (rd (α := Nat) r).map fun (x, r') => (⟨2, x⟩, r')
   | _ => none⟩
+/-- a reference / the address of one of the three cells -/
+structure Ref where
+  idx : Nat
+  deriving DecidableEq
+
+instance : Rd Ref := ⟨fun
+  | '&' :: r => (rd (α := Nat) r).map fun (i, r') => (⟨i⟩, r')
+  | _ => none⟩
+instance : Rd (Ptr Ref) := ⟨fun
+  | 'P' :: '-' :: r => some (.null, r)
+  | 'P' :: r => (rd (α := Ref) r).map fun (x, r') => (.to x, r')
+  | _ => none⟩
+
+/-- an entry of the function table of `sequence_error`: success (`u`) or a failure -/
+instance : Rd (Either Nat Unit) := ⟨fun
+  | 'u' :: r => some (.success (), r)
+  | cs => (rd (α := Nat) cs).map fun (x, r') => (.failure x, r')⟩
+
 instance : Rd Unit := ⟨fun
   | 'u' :: r => some ((), r)
   | _ => none⟩
@@ -161,6 +179,8 @@ instance : Sh V3 := ⟨fun v => (if v.idx.val = 0 then "A" else if v.idx.val = 1
 instance : Sh Bool := ⟨fun b => if b then "t" else "f"⟩
 instance : Sh Unit := ⟨fun _ => "u"⟩
 instance : Sh String := ⟨id⟩
+instance : Sh Ref := ⟨fun r => "&" ++ toString r.idx⟩
+instance : Sh (Ptr Ref) := ⟨fun | .null => "P-" | .to r => "P" ++ sh r⟩
 instance {α : Type} [Sh α] : Sh (List α) := ⟨fun l => "[" ++ String.join (l.map sh) ++ "]"⟩
 
 def showLog (l : Array String) : String := if l.isEmpty then "-" else ";".intercalate l.toList
@@ -435,6 +455,165 @@ def handle1 (toks : List String) : Option String :=
     pure (run1 (Var.apply3 (fun i (x : Nat) j (y : Nat) k (z : Nat) => do
       lg "f" [i.val, x, j.val, y, k.val, z]
       look f ((x * 3 + y) * 3 + z)) v1 v2 v3))
+  -- the rest of the public API: optional ------------------------------------------------------
+  | ["o.to_cont", c, o] => do
+    cat? c; let o ← tok (Option Nat) o
+    pure (run1 (Opt.toContainer (σ := DS) o))
+  | ["o.copy_value", c, o, cells] => do
+    catLC? c; let o ← tok (Option Ref) o; let cells ← tbl Nat 3 cells
+    pure (run1 (Opt.copyValue (fun (r : Ref) => look cells r.idx) o))
+  | ["o.deref", k, o, cells] => do
+    if k ≠ "p" ∧ k ≠ "i" then none
+    let o ← tok (Option Ref) o; let cells ← tbl Nat 3 cells
+    -- the result is a reference: it is printed with the value its cell has after every cell was bumped
+    pure (run1 do
+      let r ← Opt.deref (fun (p : Ref) => (pure p : KD Ref)) o
+      match r with
+      | none => pure "N"
+      | some ref => do
+        let v ← look cells ref.idx
+        pure s!"J{sh ref}={(v + 1) % 3}")
+  | ["o.deref_up", o] => do
+    let o ← tok (Option Nat) o
+    pure (run1 do
+      let r ← Opt.deref (fun (x : Nat) => (pure x : KD Nat)) o
+      pure (match r with | none => "N" | some v => s!"J&u={v}"))
+  | ["o.mvm1", c, o1] => do
+    cat? c; let o1 ← tok (Option Nat) o1
+    pure (run1 (Opt.maybeVoidMulti1 (fun x => lg "t" [x]) o1))
+  | ["o.mvm2", c, o1, o2] => do
+    cat2? c; let o1 ← tok (Option Nat) o1; let o2 ← tok (Option Nat) o2
+    pure (run1 (Opt.maybeVoidMulti2 (fun x y => lg "t" [x, y]) o1 o2))
+  | ["o.mvm3", c, o1, o2, o3] => do
+    cat3? c; let o1 ← tok (Option Nat) o1; let o2 ← tok (Option Nat) o2; let o3 ← tok (Option Nat) o3
+    pure (run1 (Opt.maybeVoidMulti3 (fun x y z => lg "t" [x, y, z]) o1 o2 o3))
+  | ["o.assign", o, v] => do
+    let o ← tok (Option Nat) o; let v ← tok Nat v
+    pure (run1 do
+      let (o', r) ← Opt.assign (σ := DS) o v
+      pure s!"{sh o'} {r} in")
+  | ["o.set", o, v] => do
+    let o ← tok (Option Nat) o; let v ← tok Nat v
+    if o.isNone then none   -- precondition of get_unsafe: not generated
+    pure (run1 (Opt.setUnsafe (σ := DS) o v))
+  | ["o.from_ptr", p, cells] => do
+    let p ← tok (Ptr Ref) p; let _ ← tbl Nat 3 cells
+    pure (run1 (Opt.fromPointer (σ := DS) p))
+  | ["o.to_ptr", o, cells] => do
+    let o ← tok (Option Ref) o; let _ ← tbl Nat 3 cells
+    pure (run1 (Opt.toPointer (σ := DS) o))
+  | ["o.to_exc", c, o] => do
+    cat? c; let o ← tok (Option Nat) o
+    pure (run1 (Opt.toException o (fun _ => do lg "m" []; pure (.other "E2"))))
+  | ["o.make", c, v] => do
+    cat? c; let v ← tok Nat v
+    pure (run1 (pure (Opt.make v)))
+  | ["o.out", o] => do
+    let o ← tok (Option Nat) o
+    let (_, st) := Opt.output (σ := String) (fun ch s => (.ok (), s.push ch)) (fun (v : Nat) s => (.ok (), s ++ toString v)) o ""
+    pure (st ++ " | -")
+  | ["o.nothing"] => pure (run1 (pure (Opt.nothing : Option Nat)))
+  -- either -----------------------------------------------------------------------------------
+  | ["e.cmp", a, b] => do
+    let a ← tok (Either Nat Nat) a; let b ← tok (Either Nat Nat) b
+    pure (run1 do
+      let e ← Either.eq natEq natEq a b; let n ← Either.ne natEq natEq a b
+      pure [e, n])
+  | ["e.cmp.same", a] => do
+    let a ← tok (Either Nat Nat) a
+    pure (run1 do
+      let e ← Either.eq natEq natEq a a; let n ← Either.ne natEq natEq a a
+      pure [e, n])
+  | ["e.construct", b, s, f] => do
+    let b ← tok Bool b; let s ← tokx Nat s; let f ← tokx Nat f
+    pure (run1 (Either.construct (φ := Nat) b (thunk "s" s) (thunk "f" f)))
+  | ["e.err_from_opt", c, o] => do
+    cat? c; let o ← tok (Option Nat) o
+    pure (run1 (Either.errorFromOptional (σ := DS) o))
+  | ["e.mk_fail", c, v] => do
+    cat? c; let v ← tok Nat v
+    pure (run1 (pure (Either.makeFailure v : Either Nat Nat)))
+  | ["e.mk_succ", c, v] => do
+    cat? c; let v ← tok Nat v
+    pure (run1 (pure (Either.makeSuccess v : Either Nat Nat)))
+  | ["e.out", e] => do
+    let e ← tok (Either Nat Nat) e
+    let put : Nat → K String Unit := fun v s => (.ok (), s ++ toString v)
+    let (_, st) := Either.output put put e ""
+    pure (st ++ " | -")
+  | ["e.seq_err", c, l, f] => do
+    cat? c; let l ← tok (List Nat) l; let f ← tbl (Either Nat Unit) 3 f
+    pure (run1 (Either.sequenceError l (fn1 "f" f)))
+  | ["e.to_exc", c, e] => do
+    cat? c; let e ← tok (Either Nat Nat) e
+    pure (run1 (Either.toException e (fun f => do lg "m" [f]; pure (.other s!"E1:{f}"))))
+  | ["e.set", e, v] => do
+    let e ← tok (Either Nat Nat) e; let v ← tok Nat v
+    pure (run1 (match e with
+      | .success _ => Either.setSuccessUnsafe (σ := DS) e v
+      | .failure _ => Either.setFailureUnsafe (σ := DS) e v))
+  -- variant ----------------------------------------------------------------------------------
+  | ["v.to_opt_ref", c, j, v, nv] => do
+    catLC? c; let j ← fin3 j; let v ← tok V3 v; let nv ← tok Nat nv
+    pure (run1 do
+      let r ← Var.toOptionalRef (τ := fun _ => Nat) j v
+      match r with
+      | none => pure s!"N - {sh v}"
+      | some x =>
+        if c = "L" then do
+          -- written through the reference, then read through it
+          let v' ← Var.setUnsafe (τ := fun _ => Nat) j v nv
+          let r' ← Var.getUnsafe (τ := fun _ => Nat) j v'
+          pure s!"J{r'} in {sh v'}"
+        else pure s!"J{x} in {sh v}")
+  | ["v.get", v, nv] => do
+    let v ← tok V3 v; let nv ← tok Nat nv
+    pure (run1 do
+      let x ← Var.getUnsafe (τ := fun _ => Nat) v.idx v
+      let v' ← Var.setUnsafe (τ := fun _ => Nat) v.idx v nv
+      pure s!"{x} {sh v'}")
+  | ["v.out", v] => do
+    let v ← tok V3 v
+    let (_, st) := Var.output (σ := String) (τ := fun _ => Nat) (fun _ (x : Nat) s => (.ok (), s ++ toString x)) v ""
+    pure (st ++ " | -")
+  | ["v.tinfo", v] => do
+    let v ← tok V3 v
+    pure (run1 (pure s!"{Var.typeIndex v}{Var.typeIndex v}f"))
+  | ["v.dyn", c, types, dyn] => do
+    let dyn ← tok Nat dyn <|> (if dyn = "3" then some 3 else none)
+    let ok := if c = "L" then ["1", "2", "12", "21", "32", "123", "231", "321"].contains types
+              else if c = "C" then ["12", "21"].contains types else false
+    if !ok then none
+    let tys := types.toList.map fun ch => ch.toNat - 48
+    -- dynamic type 0 = base, 1 = d1, 2 = d2 (derived from d1), 3 = d3
+    let isA (ty : Nat) : Bool := (dyn = ty) || (dyn = 2 && ty = 1)
+    pure (run1 do
+      let r ← dynamicCast (tys.map fun ty (_ : Unit) => (pure (if isA ty then some ty else none) : KD (Option Nat)))
+      pure (match r with
+        | none => "N"
+        | some (i, ty) => s!"J{i}:{ty}=obj"))
+  -- monad ------------------------------------------------------------------------------------
+  | ["m.chain2.o", c, o, f, g] => do
+    cat? c; let o ← tok (Option Nat) o; let f ← tbl (Option Nat) 3 f; let g ← tbl (Option Nat) 3 g
+    pure (run1 (chainOpt2 o (fn1 "f" f) (fn1 "g" g)))
+  | ["m.chain2.e", c, e, f, g] => do
+    cat? c; let e ← tok (Either Nat Nat) e; let f ← tbl (Either Nat Nat) 3 f; let g ← tbl (Either Nat Nat) 3 g
+    pure (run1 (chainEither2 e (fn1 "f" f) (fn1 "g" g)))
+  | ["m.chain0.o", c, o] => do
+    cat? c; let o ← tok (Option Nat) o
+    pure (run1 (chainOptN (σ := DS) o []))
+  | ["m.do3.o", c, o, f, g] => do
+    cat? c; let o ← tok (Option Nat) o; let f ← tbl (Option Nat) 3 f; let g ← tbl (Option Nat) 9 g
+    pure (run1 (doOpt3 o (fn1 "f" f) (fn2 "g" g)))
+  | ["m.do3.e", c, e, f, g] => do
+    cat? c; let e ← tok (Either Nat Nat) e; let f ← tbl (Either Nat Nat) 3 f; let g ← tbl (Either Nat Nat) 9 g
+    pure (run1 (doEither3 e (fn1 "f" f) (fn2 "g" g)))
+  | ["m.ret.o", v] => do
+    let v ← tok Nat v
+    pure (run1 (pure (returnOpt v)))
+  | ["m.ret.e", v] => do
+    let v ← tok Nat v
+    pure (run1 (pure (returnEither v : Either Nat Nat)))
   | _ => none
 
 /-- the `i`-th table D×D → D in counting order (most significant digit first) -/
